@@ -28,6 +28,8 @@ type GenOpts struct {
 	NoStyledRuns     bool
 	NoAdjacentBreaks bool // never two line breaks with nothing but blanks and tabs between them
 	NoEdgeWhite      bool // the first and last inline item of every paragraph is a text token or symbol
+
+	NumberedHeadings bool // some headings carry list numbering (numbered headings)
 }
 
 // AllHows lists every heading mechanism.
@@ -108,12 +110,18 @@ func GenDoc(t *rapid.T, o GenOpts) Doc {
 			b.Style = rapid.SampledFrom([]string{"", "", "body", "quote"}).Draw(t, "pstyle")
 			d.Blocks = append(d.Blocks, b)
 		case BHeading:
-			d.Blocks = append(d.Blocks, Block{
+			h := Block{
 				Kind:  BHeading,
 				Level: g.level(),
 				How:   rapid.SampledFrom(o.Hows).Draw(t, "how"),
 				Runs:  g.para(false, 2),
-			})
+			}
+			if o.NumberedHeadings && len(d.Lists) > 0 && rapid.IntRange(0, 3).Draw(t, "numberedHeading") == 0 {
+				h.Numbered = true
+				h.List = rapid.IntRange(0, len(d.Lists)-1).Draw(t, "headingList")
+				h.Depth = rapid.IntRange(0, len(d.Lists[h.List].Kinds)-1).Draw(t, "headingListLevel")
+			}
+			d.Blocks = append(d.Blocks, h)
 		case BItem:
 			list := rapid.IntRange(0, len(d.Lists)-1).Draw(t, "list")
 			n := rapid.IntRange(1, 5).Draw(t, "nitems")
